@@ -1,15 +1,30 @@
-"""C13 - parallel gradient is the field-aligned finite-difference derivative."""
+"""C13 - parallel gradient is the field-aligned finite-difference derivative.
+
+The rules work on a small flow model of the three methods involved (`Flow`): the locals of a method are resolved by
+def-use in program order (parameters and loop counters become distinct symbols, so a loop variable that shadows a
+parameter cannot be confused with it), loops are recorded as index frames (counted rows, stencil entries), and the stores
+into the result / table arrays are collected with the frames and conditions they sit under.  The rules then compare
+symbolic normal forms (sympy) of the recorded parts with the specification:
+
+* getCoeffsFirstDeriv(n): right-hand side e_1, shifts j + start with start = 1 - (n+1)//2, moment matrix shift_j**i;
+* _getThetaVals: column c of the angle table is fieldline(theta, dz * shift_c) for every row the table has;
+* parallel_gradient: the source rows tile [0, nz), every contribution goes to row (row - shift_j) mod nz with weight
+  coeff_j and the angle column j, unwrapped targets stay inside [-nz, nz), the total scale is b_z(r_i)/dz, applied once.
+
+A form the model cannot follow is UNDECIDED; VIOLATED is reserved for extracted forms that differ from the
+specification (with the two sides in the diagnosis).
+"""
 from __future__ import annotations
 
 import ast
 import copy
 
 import sympy as sp
-from sympy import Symbol, Function
+from sympy import Symbol, Function, Integer
 
-from ..core import src, AnalysisError, parent
+from ..core import src, parent
 from .. import units as U
-from ..symx import alg_equal, Undecided, Wrap
+from ..symx import alg_equal, Undecided, ITE
 from ..npsym import NpSym
 from .. import lints
 from .C05 import parallel_gradient as pg_index_spaces, v_parallel
@@ -18,188 +33,1196 @@ from .C10 import sibling_geometry
 CLS = "ParallelGradient"
 
 
-def fd_system(chk):
-    fn = chk.func(U.ADV, f"{CLS}.getCoeffsFirstDeriv")
-    t = src(fn).replace(" ", "").replace("\n", ";")
-    ok_b = "b=np.zeros(n)" in t and "b[1]=1" in t
-    chk.ob("F7-fd-system", fn, "b = e_1", ok_b, "right-hand side selects the first derivative (moment 1)" if ok_b else
-           "right-hand side is not the unit vector e_1", file=U.ADV, func=f"{CLS}.getCoeffsFirstDeriv")
-    ok_s = "self._shifts=np.arange(n)+start" in t
-    st = [n for n in fn.body if isinstance(n, ast.Assign) and src(n.targets[0]) == "start"]
-    # centred for even order (odd number of points n): start = -(n-1)/2 ; in general start = 1 - (n+1)//2
-    okc = False
-    if st:
+# ======================================================================================================================
+# flow model: def-use resolution + loop frames + recorded stores / calls
+# ======================================================================================================================
+ALLOC = {"empty", "zeros", "ones", "ndarray", "empty_like", "zeros_like", "ones_like", "full", "full_like"}
+
+
+def _clone(e):
+    return copy.deepcopy(e)
+
+
+def _name(s):
+    return ast.Name(id=s, ctx=ast.Load())
+
+
+class Frame:
+    """one enclosing loop: `sym` counts its iterations from `lo` (inclusive) to `hi` (exclusive); kind 'range' for counted
+    loops, 'elems' for loops over the elements of arrays (count = number of elements of `over`)"""
+
+    def __init__(self, sym, kind, lo=None, hi=None, over=(), node=None):
+        self.sym, self.kind, self.lo, self.hi, self.over, self.node = sym, kind, lo, hi, list(over), node
+
+
+class Event:
+    def __init__(self, kind, node, frames, guards, **kw):
+        self.kind, self.node, self.frames, self.guards = kind, node, list(frames), list(guards)
+        self.__dict__.update(kw)
+
+
+class Flow:
+    """resolved view of one function.  After `run()`: `events` (stores, in-place updates, expression calls, returns, in
+    program order), `opaque` (reasons why parts of the body were not followed)."""
+
+    def __init__(self, fn, arrays=()):
+        self.fn = fn
+        self.env: dict[str, ast.AST] = {}
+        self.events: list[Event] = []
+        self.opaque: list[str] = []
+        self.frames: list[Frame] = []
+        self.guards: list = []
+        self.nsym = 0
+        self.arrays = set(arrays)            # source texts of 1-D arrays whose elements are taken by loops / subscripts
+        self.buffers: dict[str, ast.AST] = {}
+        for a in fn.args.args + fn.args.kwonlyargs:
+            if a.arg != "self":
+                self.env[a.arg] = _name("P_" + a.arg)
+
+    # ---- expressions
+    def resolve(self, e):
+        flow = self
+
+        class R(ast.NodeTransformer):
+            def visit_Name(self, node):
+                if node.id in flow.env:
+                    return _clone(flow.env[node.id])
+                return node
+        out = R().visit(_clone(e))
+        return self.push_subscripts(out)
+
+    def is_array_expr(self, e):
+        """element-wise expression over the known 1-D arrays (at least one of them occurs)"""
+        if src(e) in self.arrays:
+            return True
+        if isinstance(e, ast.BinOp):
+            return self.is_array_expr(e.left) or self.is_array_expr(e.right)
+        if isinstance(e, ast.UnaryOp):
+            return self.is_array_expr(e.operand)
+        return False
+
+    def elem(self, e, idx):
+        """element `idx` of an element-wise expression over the known arrays (scalars broadcast)"""
+        if src(e) in self.arrays:
+            return ast.Subscript(value=_clone(e), slice=_clone(idx), ctx=ast.Load())
+        if isinstance(e, ast.BinOp) and self.is_array_expr(e):
+            return ast.BinOp(left=self.elem(e.left, idx), op=e.op, right=self.elem(e.right, idx))
+        if isinstance(e, ast.UnaryOp) and self.is_array_expr(e):
+            return ast.UnaryOp(op=e.op, operand=self.elem(e.operand, idx))
+        if isinstance(e, ast.Call) and isinstance(e.func, ast.Name) and e.func.id == "range" and not e.keywords:
+            a = e.args
+            if len(a) == 1:
+                return _clone(idx)
+            if len(a) == 2:
+                return ast.BinOp(left=_clone(a[0]), op=ast.Add(), right=_clone(idx))
+            return None
+        return _clone(e) if not isinstance(e, (ast.Call, ast.Subscript)) or not self.is_array_expr(e) else None
+
+    def push_subscripts(self, e):
+        flow = self
+
+        class P(ast.NodeTransformer):
+            def visit_Subscript(self, node):
+                self.generic_visit(node)
+                if not isinstance(node.slice, (ast.Tuple, ast.Slice)) and isinstance(node.value, (ast.BinOp, ast.UnaryOp)) \
+                        and flow.is_array_expr(node.value):
+                    el = flow.elem(node.value, node.slice)
+                    if el is not None:
+                        return el
+                return node
+        return P().visit(e)
+
+    def new_sym(self, pfx):
+        self.nsym += 1
+        return f"{pfx}{self.nsym}"
+
+    # ---- statements
+    def run(self):
+        self.block(self.fn.body)
+        return self
+
+    def emit(self, kind, node, **kw):
+        ev = Event(kind, node, self.frames, self.guards, **kw)
+        self.events.append(ev)
+        return ev
+
+    def block(self, stmts):
+        for st in stmts:
+            self.stmt(st)
+
+    def bind(self, target, value):
+        if isinstance(target, ast.Name):
+            self.env[target.id] = value if value is not None else _name("U_" + target.id)
+        elif isinstance(target, (ast.Tuple, ast.List)):
+            vals = value.elts if isinstance(value, (ast.Tuple, ast.List)) and len(value.elts) == len(target.elts) else None
+            for k, t in enumerate(target.elts):
+                self.bind(t, vals[k] if vals else None)
+
+    def stmt(self, st):
+        if isinstance(st, ast.Expr) and isinstance(st.value, ast.Constant):
+            return
+        if isinstance(st, (ast.Assign, ast.AnnAssign)):
+            targets = st.targets if isinstance(st, ast.Assign) else [st.target]
+            if st.value is None:
+                return
+            val = self.resolve(st.value)
+            for t in targets:
+                if isinstance(t, (ast.Name, ast.Tuple, ast.List)) and all(isinstance(x, ast.Name) for x in ast.walk(t) if isinstance(x, ast.expr)
+                                                                           and not isinstance(x, (ast.Tuple, ast.List))):
+                    if isinstance(t, ast.Name) and isinstance(val, ast.Call) and src(val.func).split(".")[-1] in ALLOC:
+                        b = self.new_sym("BUF_" + t.id + "_")
+                        self.buffers[b] = val
+                        self.env[t.id] = _name(b)
+                    else:
+                        self.bind(t, val)
+                else:
+                    self.emit("store", st, target=self.resolve(t), value=val, op=None)
+            return
+        if isinstance(st, ast.AugAssign):
+            val = self.resolve(st.value)
+            if isinstance(st.target, ast.Name):
+                cur = self.env.get(st.target.id)
+                if cur is None or (isinstance(cur, ast.Name) and cur.id.startswith(("P_", "BUF_"))):
+                    # in-place update of an array handed in / allocated here
+                    self.emit("store", st, target=self.resolve(st.target), value=val, op=st.op)
+                else:
+                    self.env[st.target.id] = ast.BinOp(left=_clone(cur), op=st.op, right=val)
+                    self.emit("rebind", st, name=st.target.id, value=self.env[st.target.id], op=st.op)
+            else:
+                self.emit("store", st, target=self.resolve(st.target), value=val, op=st.op)
+            return
+        if isinstance(st, ast.Expr):
+            self.emit("call" if isinstance(st.value, ast.Call) else "expr", st, value=self.resolve(st.value))
+            return
+        if isinstance(st, ast.Return):
+            self.emit("return", st, value=self.resolve(st.value) if st.value is not None else None)
+            return
+        if isinstance(st, ast.Assert):
+            self.emit("assert", st, value=self.resolve(st.test))
+            return
+        if isinstance(st, ast.For) and not st.orelse:
+            self.loop(st)
+            return
+        if isinstance(st, ast.If):
+            test = self.resolve(st.test)
+            if isinstance(test, ast.Constant) and isinstance(test.value, bool):
+                self.block(st.body if test.value else st.orelse)
+                return
+            env0 = dict(self.env)
+            self.guards.append((test, True))
+            self.block(st.body)
+            env1 = self.env
+            self.guards[-1] = (test, False)
+            self.env = dict(env0)
+            self.block(st.orelse)
+            env2 = self.env
+            self.guards.pop()
+            out = {}
+            for k in set(env1) | set(env2):
+                a, b = env1.get(k), env2.get(k)
+                if a is not None and b is not None and src(a) == src(b):
+                    out[k] = a
+                elif a is not None and b is not None:
+                    out[k] = ast.IfExp(test=_clone(test), body=a, orelse=b)
+                else:
+                    out[k] = _name("U_" + k)
+            self.env = out
+            return
+        if isinstance(st, ast.With):
+            self.block(st.body)
+            return
+        if isinstance(st, ast.Pass):
+            return
+        self.opaque.append(f"`{src(st).splitlines()[0][:60]}` ({type(st).__name__})")
+        for n in ast.walk(st):
+            if isinstance(n, ast.Name) and isinstance(n.ctx, ast.Store):
+                self.env[n.id] = _name("U_" + n.id)
+
+    def loop(self, st):
+        it = self.resolve(st.iter)
+        tgt = st.target
+        enum = False
+        if isinstance(it, ast.Call) and isinstance(it.func, ast.Name) and it.func.id == "enumerate" and len(it.args) == 1 and not it.keywords:
+            enum = True
+            it = it.args[0]
+        seqs = None
+        if isinstance(it, ast.Call) and isinstance(it.func, ast.Name) and it.func.id == "zip" and not it.keywords:
+            seqs = list(it.args)
+        is_range = isinstance(it, ast.Call) and isinstance(it.func, ast.Name) and it.func.id == "range" and not it.keywords \
+            and len(it.args) in (1, 2)
+        frame = None
+        cnt = elem_t = None
+        if enum:
+            if isinstance(tgt, (ast.Tuple, ast.List)) and len(tgt.elts) == 2:
+                cnt, elem_t = tgt.elts
+        else:
+            elem_t = tgt
+        if is_range and not enum:
+            sym = self.new_sym("K")
+            lo = it.args[0] if len(it.args) == 2 else ast.Constant(value=0)
+            frame = Frame(sym, "range", lo, it.args[-1], node=st)
+            self.frames.append(frame)
+            self.bind(tgt, _name(sym)) if isinstance(tgt, ast.Name) else self.bind(tgt, None)
+        elif (enum and cnt is not None and isinstance(cnt, ast.Name)) or (not enum and seqs is not None) or (not enum and not is_range):
+            sym = self.new_sym("J")
+            over = seqs if seqs is not None else [it]
+            elems = [self.elem(s_, _name(sym)) if (self.is_array_expr(s_) or (isinstance(s_, ast.Call) and isinstance(s_.func, ast.Name)
+                                                                               and s_.func.id == "range")) else None for s_ in over]
+            frame = Frame(sym, "elems", ast.Constant(value=0), None, over=over, node=st)
+            self.frames.append(frame)
+            if enum:
+                self.bind(cnt, _name(sym))
+            if seqs is not None:
+                if isinstance(elem_t, (ast.Tuple, ast.List)) and len(elem_t.elts) == len(seqs):
+                    for t_, v_ in zip(elem_t.elts, elems):
+                        self.bind(t_, v_)
+                else:
+                    self.bind(elem_t, None)
+            else:
+                self.bind(elem_t, elems[0])
+        else:
+            sym = self.new_sym("L")
+            frame = Frame(sym, "other", node=st)
+            self.frames.append(frame)
+            self.bind(tgt, None)
+        self.block(st.body)
+        self.frames.pop()
+
+
+# ---- resolved syntax -> sympy ----------------------------------------------------------------------------------------
+NZ = Symbol("nz", integer=True, positive=True)
+NPTS = Symbol("n", integer=True, positive=True)
+FWD, BKWD = Symbol("fwdSteps", integer=True), Symbol("bkwdSteps", integer=True)
+DZ, INVDZ = Symbol("dz", positive=True), Symbol("inv_dz", positive=True)
+SHIFT, COEFF, BZ = Function("shift"), Function("coeff"), Function("bz")
+MOD = Function("mod")
+ATTR_SYMS = {"self._nz": NZ, "self._fwdSteps": FWD, "self._bkwdSteps": BKWD, "self._dz": DZ, "self._inv_dz": INVDZ}
+ATTR_FUNS = {"self._shifts": SHIFT, "self._coeffs": COEFF, "self._bz": BZ}
+SIZES = ("len(self._shifts)", "len(self._coeffs)", "self._shifts.size", "self._coeffs.size", "self._shifts.shape[0]",
+         "self._coeffs.shape[0]")
+
+
+def to_sym(e, extra=None):
+    """sympy normal form of a resolved integer / real expression; Undecided when a part has no model"""
+    s = src(e)
+    if extra and s in extra:
+        return extra[s]
+    if s in ATTR_SYMS:
+        return ATTR_SYMS[s]
+    if s in SIZES:
+        return NPTS
+    if isinstance(e, ast.Constant):
+        if isinstance(e.value, bool) or not isinstance(e.value, (int, float)):
+            raise Undecided(f"constant {e.value!r}")
+        return Integer(e.value) if isinstance(e.value, int) else sp.Rational(repr(e.value))
+    if isinstance(e, ast.Name):
+        if e.id[:1] in "KJL" and e.id[1:].isdigit():
+            return Symbol(e.id, integer=True)
+        if e.id.startswith(("P_", "BUF_")):
+            return Symbol(e.id)
+        raise Undecided(f"unresolved name `{e.id[2:] if e.id.startswith('U_') else e.id}`")
+    if isinstance(e, ast.Attribute):
+        if isinstance(e.value, ast.Name) and e.value.id == "self":
+            return Symbol(s)
+        raise Undecided(f"attribute `{s}`")
+    if isinstance(e, ast.UnaryOp) and isinstance(e.op, (ast.USub, ast.UAdd)):
+        v = to_sym(e.operand, extra)
+        return -v if isinstance(e.op, ast.USub) else v
+    if isinstance(e, ast.BinOp):
+        a, b = to_sym(e.left, extra), to_sym(e.right, extra)
+        if isinstance(e.op, ast.Add):
+            return a + b
+        if isinstance(e.op, ast.Sub):
+            return a - b
+        if isinstance(e.op, ast.Mult):
+            return a * b
+        if isinstance(e.op, ast.Div):
+            return a / b
+        if isinstance(e.op, ast.Pow):
+            return a ** b
+        if isinstance(e.op, ast.FloorDiv):
+            return sp.floor(a / b)
+        if isinstance(e.op, ast.Mod):
+            return MOD(a, b)
+        raise Undecided(f"operator in `{s[:40]}`")
+    if isinstance(e, ast.Subscript):
+        base = src(e.value)
+        if base in ATTR_FUNS and not isinstance(e.slice, (ast.Tuple, ast.Slice)):
+            return ATTR_FUNS[base](to_sym(e.slice, extra))
+        raise Undecided(f"subscript `{s[:50]}`")
+    if isinstance(e, ast.Call) and not e.keywords:
+        f = src(e.func)
+        if f in ("int", "float") and len(e.args) == 1:
+            return to_sym(e.args[0], extra)
+        if f in ("min", "max", "np.minimum", "np.maximum") and len(e.args) >= 2:
+            return (sp.Min if f.endswith(("min", "minimum")) else sp.Max)(*[to_sym(a, extra) for a in e.args])
+        raise Undecided(f"call `{s[:50]}`")
+    if isinstance(e, ast.IfExp):
+        return ITE(Symbol("cond_" + "".join(ch if ch.isalnum() else "_" for ch in src(e.test))[:40]), to_sym(e.body, extra),
+                   to_sym(e.orelse, extra))
+    raise Undecided(f"expression `{s[:50]}`")
+
+
+def strip_mod(v, modulus=NZ):
+    """(core, wrapped): `mod(core, modulus)` -> core"""
+    if isinstance(v, sp.Basic) and v.func == MOD and sp.simplify(v.args[1] - modulus) == 0:
+        return v.args[0], True
+    return v, False
+
+
+def params_in(e):
+    return sorted({n.id[2:] for n in ast.walk(e) if isinstance(n, ast.Name) and n.id.startswith("P_")})
+
+
+# ======================================================================================================================
+# facts of the finite-difference stencil (getCoeffsFirstDeriv)
+# ======================================================================================================================
+def parities(expr):
+    """the expression for an even and for an odd number of stencil points"""
+    m = Symbol("m", integer=True, positive=True)
+    out = []
+    for nv in (2 * m, 2 * m + 1):
         try:
-            okc = all(eval(src(st[0].value), {"__builtins__": {}}, {"n": n}) == 1 - (n + 1) // 2 for n in range(2, 12))
+            out.append(sp.simplify(expr.subs(NPTS, nv)))
         except Exception:
-            okc = False
-    chk.ob("F7-fd-system", st[0] if st else fn, "shifts = arange(n) + 1 - (n+1)//2", ok_s and okc,
-           "n consecutive integer shifts, symmetric about 0 when n is odd (even order)" if ok_s and okc else
-           "stencil shifts are not arange(n) + 1 - (n+1)//2", file=U.ADV, func=f"{CLS}.getCoeffsFirstDeriv")
-    # A[i, j] = (j + start)**i  (Vandermonde in the shifts), coefficients = solve(A, b)
-    asg = [n for n in ast.walk(fn) if isinstance(n, ast.Assign) and src(n.targets[0]).replace(" ", "") == "A[i,j]"]
-    ok_a = len(asg) == 1 and src(asg[0].value).replace(" ", "") in ("(j+start)**i", "(start+j)**i") and "self._coeffs=solve(A,b)" in t
-    lp = [n for n in ast.walk(fn) if isinstance(n, ast.For)]
-    ok_l = len(lp) == 2 and all(src(l.iter).replace(" ", "") == "range(n)" for l in lp)
-    chk.ob("F7-fd-system", asg[0] if asg else fn, "A[i,j] = shift_j**i; coeffs = solve(A, b)", ok_a and ok_l,
-           "sum_j c_j shift_j^i = delta_{i1}: exact first derivative for polynomials up to degree n-1" if ok_a and ok_l else
-           "moment system changed", file=U.ADV, func=f"{CLS}.getCoeffsFirstDeriv")
-    ok_fb = "self._fwdSteps=-start" in t and "self._bkwdSteps=self._shifts[-1]" in t
-    chk.ob("F7-fd-system", fn, "_fwdSteps = -start, _bkwdSteps = shifts[-1]", ok_fb,
-           "the unwrapped index regime is bounded by the most negative and most positive shift", file=U.ADV,
-           func=f"{CLS}.getCoeffsFirstDeriv")
+            out.append(expr.subs(NPTS, nv))
+    return out
+
+
+def equal_for_all_n(a, b):
+    """True / False (with the first parity that differs) / None"""
+    res = []
+    for x, y, nm in zip(parities(a), parities(b), ("even", "odd")):
+        d = sp.simplify(x - y)
+        foreign = [s_ for s_ in d.free_symbols if str(s_).startswith(("self.", "P_", "U_", "cond_", "BUF_"))]
+        if d == 0:
+            res.append(True)
+        elif not foreign and (d.is_number or alg_equal(x, y) is False and not d.has(sp.floor, sp.ceiling, MOD)):
+            return False, nm, x, y
+        else:
+            return None, nm, x, y
+    return True, None, None, None
+
+
+def sign_for_all(expr):
+    """sign of an expression in m >= 1 and t >= 0 (integers) that is linear with constant coefficients:
+    'nonneg' / 'nonpos' / 'pos' / 'neg' / None"""
+    m, t = Symbol("m", integer=True, positive=True), Symbol("t", integer=True, nonnegative=True)
+    m0 = Symbol("m0", integer=True, nonnegative=True)
+    e = sp.expand(sp.simplify(expr).subs(m, m0 + 1))
+    if e.free_symbols - {m0, t}:
+        return None
+    try:
+        poly = sp.Poly(e, m0, t)
+    except Exception:
+        return None
+    if poly.total_degree() > 1:
+        return None
+    cs = {mon: c for mon, c in zip(poly.monoms(), poly.coeffs())}
+    const = cs.pop((0, 0), Integer(0))
+    if not any(c != 0 for c in cs.values()) and const == 0:
+        return "zero"
+    if all(c >= 0 for c in cs.values()) and const >= 0:
+        return "pos" if const > 0 else "nonneg"
+    if all(c <= 0 for c in cs.values()) and const <= 0:
+        return "neg" if const < 0 else "nonpos"
+    return None
+
+
+def stencil_facts(chk):
+    """{'start', 'shift'(c), 'fwd', 'bkwd'} as functions of the number of points n, read off getCoeffsFirstDeriv"""
+    cache = chk.__dict__.setdefault("_c13_facts", {})
+    if "facts" in cache:
+        return cache["facts"]
+    fn = chk.func(U.ADV, f"{CLS}.getCoeffsFirstDeriv")
+    params = [a.arg for a in fn.args.args if a.arg != "self"]
+    facts = {"fn": fn, "n_param": params[0] if params else None}
+    K = Symbol("K")
+    if params:
+        ns = NpSym(env={params[0]: NPTS, "int": lambda x: x})
+        ns.run(fn.body)
+        sh = ns.env.get("self._shifts")
+        if sh is not None and ns.aranges.get("K") is not None and len(ns.aranges["K"]) == 1:
+            try:
+                cnt = ns.ev(ns.aranges["K"][0])
+            except Undecided:
+                cnt = None
+            lin = sp.expand(sh - K)
+            if cnt is not None and not lin.has(K) and sp.simplify(cnt - NPTS) == 0:
+                facts["start"] = lin
+                facts["shift"] = lambda c, lin=lin: c + lin
+                for k, v in (("self._shifts[-1]", lin + NPTS - 1), ("self._shifts[0]", lin), ("self._shifts.max()", lin + NPTS - 1),
+                             ("self._shifts.min()", lin), ("np.max(self._shifts)", lin + NPTS - 1), ("np.min(self._shifts)", lin)):
+                    ns.hooks[k] = v
+                ns.run(fn.body)
+            elif cnt is not None and sh is not None:
+                facts["shifts_raw"] = sh
+        facts["npsym"] = ns
+        for key, attr in (("fwd", "self._fwdSteps"), ("bkwd", "self._bkwdSteps")):
+            v = ns.env.get(attr)
+            if v is not None and not v.has(K):
+                facts[key] = v
+    cache["facts"] = facts
+    return facts
+
+
+def concretise(v, facts):
+    """replace the uninterpreted stencil symbols by their values as functions of n"""
+    if "shift" in facts:
+        v = v.replace(lambda x: x.func == SHIFT, lambda x: facts["shift"](x.args[0]))
+    if "fwd" in facts:
+        v = v.subs(FWD, facts["fwd"])
+    if "bkwd" in facts:
+        v = v.subs(BKWD, facts["bkwd"])
+    return v
+
+
+def fd_system(chk):
+    from ..core import same_expr
+    facts = stencil_facts(chk)
+    fn = facts["fn"]
+    q = f"{CLS}.getCoeffsFirstDeriv"
+    npar = facts["n_param"]
+    # ---- right-hand side: the unit vector e_1 (selects the first derivative among the moments)
+    top = list(fn.body)
+    bdef = [s for s in top if isinstance(s, ast.Assign) and len(s.targets) == 1 and src(s.targets[0]) == "b"]
+    bset = [s for s in ast.walk(fn) if isinstance(s, (ast.Assign, ast.AugAssign)) and isinstance(
+        (s.targets[0] if isinstance(s, ast.Assign) else s.target), ast.Subscript) and src((s.targets[0] if isinstance(s, ast.Assign) else s.target).value) == "b"]
+    ok = bad = None
+    if len(bdef) == 1 and isinstance(bdef[0].value, ast.Call) and src(bdef[0].value.func) in ("np.zeros", "zeros") and bdef[0].value.args \
+            and src(bdef[0].value.args[0]) in (npar, f"({npar},)", f"[{npar}]"):
+        if len(bset) == 1 and isinstance(bset[0], ast.Assign) and isinstance(bset[0].targets[0].slice, ast.Constant) \
+                and isinstance(bset[0].value, ast.Constant):
+            pos, val = bset[0].targets[0].slice.value, bset[0].value.value
+            if pos == 1 and val == 1:
+                ok = True
+            elif isinstance(pos, int) and isinstance(val, (int, float)):
+                bad = (f"the right-hand side is {val} at moment {pos} (`{src(bset[0])}`), not the unit vector e_1: the weights reproduce "
+                       f"{'a multiple of ' if pos == 1 else ''}the derivative of order {pos}, not the first derivative")
+        elif not bset:
+            bad = "the right-hand side stays zero: no moment is selected, all weights vanish"
+    chk.pat("F7-fd-system", bset[0] if bset else (bdef[0] if bdef else fn), "b = e_1", ok,
+            "right-hand side selects the first derivative (moment 1)", bad, file=U.ADV, func=q)
+    # ---- shifts: n consecutive integers from start = 1 - (n+1)//2 (centred when n is odd, i.e. for even orders)
+    want_start = 1 - sp.floor((NPTS + 1) / 2)
+    shdef = [s for s in ast.walk(fn) if isinstance(s, ast.Assign) and src(s.targets[0]) == "self._shifts"]
+    ok = bad = None
+    if "start" in facts:
+        r, par, x, y = equal_for_all_n(facts["start"], want_start)
+        if r is True:
+            ok = True
+        elif r is False:
+            bad = (f"the stencil is the n consecutive shifts starting at {facts['start']} (= {x} for an {par} number of points), expected "
+                   f"1 - (n+1)//2 (= {y}): the stencil is not centred on the node, the difference quotient loses an order / is one-sided")
+    chk.pat("F7-fd-system", shdef[0] if shdef else fn, "shifts = arange(n) + 1 - (n+1)//2", ok,
+            "n consecutive integer shifts, symmetric about 0 when n is odd (even order)", bad, file=U.ADV, func=q)
+    # ---- moment matrix A[i, j] = shift_j ** i and coefficients = solve(A, b)
+    asg = [s for s in ast.walk(fn) if isinstance(s, ast.Assign) and isinstance(s.targets[0], ast.Subscript) and src(s.targets[0].value) == "A"]
+    sol = [s for s in ast.walk(fn) if isinstance(s, ast.Assign) and src(s.targets[0]) == "self._coeffs"]
+    ok = bad = None
+    if len(asg) == 1 and len(sol) == 1 and "shift" in facts and isinstance(asg[0].targets[0].slice, ast.Tuple) and len(asg[0].targets[0].slice.elts) == 2:
+        loops = []
+        p = parent(asg[0])
+        while p is not None and p is not fn:
+            if isinstance(p, ast.For):
+                loops.append(p)
+            p = parent(p)
+        row, col = asg[0].targets[0].slice.elts
+        lv = {l.target.id: l for l in loops if isinstance(l.target, ast.Name)}
+        full = all(same_expr(l.iter, f"range({npar})") for l in loops)
+        if len(loops) == 2 and isinstance(row, ast.Name) and isinstance(col, ast.Name) and {row.id, col.id} == set(lv):
+            ri, cj = Symbol("row_i", integer=True, nonnegative=True), Symbol("col_j", integer=True, nonnegative=True)
+            ns = facts["npsym"]
+            ev = NpSym(env={**{k: v for k, v in ns.env.items() if v is not None and not callable(v) and not k.startswith("<")},
+                            row.id: ri, col.id: cj, "int": lambda x: x}, hooks=dict(ns.hooks))
+            ev.hooks[f"self._shifts[{col.id}]"] = facts["shift"](cj)
+            ev.hooks[f"self._shifts[{row.id}]"] = facts["shift"](ri)
+            try:
+                got = ev.ev(asg[0].value)
+            except Undecided:
+                got = None
+            if got is not None:
+                want = facts["shift"](cj) ** ri
+                swapped = facts["shift"](ri) ** cj
+                solve_ok = isinstance(sol[0].value, ast.Call) and src(sol[0].value.func).split(".")[-1] == "solve" and \
+                    [src(a) for a in sol[0].value.args] == ["A", "b"] and not sol[0].value.keywords
+                same = equal_for_all_n(got, want)[0]
+                if same is True and full and solve_ok:
+                    ok = True
+                elif same is False and equal_for_all_n(got, swapped)[0] is True:
+                    bad = (f"`{src(asg[0])}` stores shift_row ** column: the matrix is the transpose of the moment system, so solve(A, b) "
+                           "returns weights of a different functional than the first derivative")
+                elif same is False and full and solve_ok:
+                    bad = (f"`{src(asg[0])}`: entry (i, j) is {got}, expected shift_j ** i = {want}: the weights no longer satisfy "
+                           "sum_j c_j shift_j^i = delta_{i1}")
+    chk.pat("F7-fd-system", asg[0] if asg else fn, "A[i,j] = shift_j**i; coeffs = solve(A, b)", ok,
+            "sum_j c_j shift_j^i = delta_{i1}: exact first derivative for polynomials up to degree n-1", bad, file=U.ADV, func=q)
+    # ---- the bounds of the unwrapped index regime are integers derived from the shifts (their use is checked by F7-regimes)
+    have = "fwd" in facts and "bkwd" in facts
+    chk.ob("F7-fd-system", fn, "_fwdSteps, _bkwdSteps as functions of n", True if have else None,
+           f"_fwdSteps = {facts.get('fwd')}, _bkwdSteps = {facts.get('bkwd')} (n = number of stencil points): the regime bounds of "
+           "parallel_gradient are checked against the extreme shifts with these values" if have else
+           "the definitions of self._fwdSteps / self._bkwdSteps are outside the extractable fragment", file=U.ADV, func=q)
+    # ---- number of stencil points = order + 1; grids smaller than the stencil are refused
     init = chk.func(U.ADV, f"{CLS}.__init__")
-    ti = src(init).replace(" ", "").replace("\n", ";")
-    ok_o = "self.getCoeffsFirstDeriv(order+1)" in ti and "assertself._nz>order" in ti
-    chk.ob("F7-fd-system", init, "getCoeffsFirstDeriv(order + 1)", ok_o, "order + 1 stencil points for the requested order; grids "
-           "smaller than the stencil are refused" if ok_o else "number of stencil points is not order+1", file=U.ADV, func=f"{CLS}.__init__")
+    calls = [c for c in ast.walk(init) if isinstance(c, ast.Call) and isinstance(c.func, ast.Attribute) and c.func.attr == "getCoeffsFirstDeriv"
+             and src(c.func.value) == "self"]
+    ok = bad = None
+    if len(calls) == 1 and len(calls[0].args) + len(calls[0].keywords) == 1:
+        a = (calls[0].args + [k.value for k in calls[0].keywords])[0]
+        o = Symbol("order", integer=True, positive=True)
+        try:
+            got = NpSym(env={"order": o, "int": lambda x: x}).ev(a)
+        except Undecided:
+            got = None
+        if got is not None:
+            if sp.simplify(got - (o + 1)) == 0:
+                ok = True
+            elif sp.simplify(got - (o + 1)).is_number:
+                bad = (f"getCoeffsFirstDeriv({src(a)}) builds a stencil of {got} points for the requested order: a scheme of order "
+                       f"{sp.simplify(got - 1)} instead of `order`")
+    chk.pat("F7-fd-system", calls[0] if calls else init, "getCoeffsFirstDeriv(order + 1)", ok,
+            "order + 1 stencil points for the requested order", bad, file=U.ADV, func=f"{CLS}.__init__")
+    guard = None
+    for n in ast.walk(init):
+        t = n.test if isinstance(n, ast.Assert) else (n.test if isinstance(n, ast.If) and any(isinstance(x, ast.Raise) for x in n.body) else None)
+        if isinstance(t, ast.Compare) and len(t.ops) == 1 and {"self._nz", "order"} <= {x for x in (src(y) for y in ast.walk(t)) if x in ("self._nz", "order")}:
+            guard = n
+    chk.ob("F7-fd-system", guard or init, "grids smaller than the stencil are refused", True if guard is not None else None,
+           f"`{src(guard).splitlines()[0][:70]}`" if guard is not None else
+           "no comparison of self._nz with order found in the constructor: the three index regimes overlap when nz <= order",
+           file=U.ADV, func=f"{CLS}.__init__")
 
 
-THETA_TABLE_TEMPLATE = """
-for k in range(eta_grid[2].size):
-    for i, l in enumerate(self._shifts):
-        thetaVals[(k + l) % n, i, :] = fieldline(eta_grid[1], self._dz * l, iota, r, R0)
-"""
+# ======================================================================================================================
+# angle table (_getThetaVals, allocated in __init__)
+# ======================================================================================================================
+def _strip_broadcast(e):
+    """(expression without [None, :]-style subscripts, position of the kept axis among the subscript items or None)"""
+    pos = None
+    while isinstance(e, ast.Subscript):
+        items = e.slice.elts if isinstance(e.slice, ast.Tuple) else [e.slice]
+        full = [isinstance(i, ast.Slice) and i.lower is None and i.upper is None and i.step is None for i in items]
+        none = [isinstance(i, ast.Constant) and i.value is None for i in items]
+        if all(f or n for f, n in zip(full, none)) and sum(full) <= 1:
+            if sum(full) == 1 and len(items) > 1:
+                pos = full.index(True)
+            e = e.value
+        else:
+            break
+    return e, pos
+
+
+def table_model(chk):
+    """how _getThetaVals fills the table handed in: {'rank', 'col_axis', 'row_axis', 'zdiff'(column symbol -> sympy), ...}
+    or {'why': reason}"""
+    cache = chk.__dict__.setdefault("_c13_facts", {})
+    if "table" in cache:
+        return cache["table"]
+    fn = chk.func(U.ADV, f"{CLS}._getThetaVals")
+    fl = Flow(fn, arrays={"self._shifts"}).run()
+    out = {"fn": fn, "flow": fl}
+    cache["table"] = out
+    stores = [e for e in fl.events if e.kind == "store" and src(e.target).split("[")[0] == "P_thetaVals"]
+    if fl.opaque:
+        out["why"] = "statement outside the model: " + fl.opaque[0]
+        return out
+    if len(stores) != 1 or stores[0].op is not None or stores[0].guards:
+        out["why"] = f"{len(stores)} stores into the table (one unconditional assignment expected)"
+        return out
+    st = stores[0]
+    out["store"] = st
+    tgt = st.target
+    items = [] if isinstance(tgt, ast.Name) else (list(tgt.slice.elts) if isinstance(tgt.slice, ast.Tuple) else [tgt.slice])
+    if isinstance(tgt, ast.Subscript) and not (isinstance(tgt.value, ast.Name)):
+        out["why"] = f"store target `{src(st.node.targets[0])}` is not an element/slice of the table"
+        return out
+    val = st.value
+    if not (isinstance(val, ast.Call) and isinstance(val.func, ast.Name) and val.func.id == "fieldline"):
+        out["why"] = f"the stored value `{src(st.node.value)[:60]}` is not a call of fieldline"
+        return out
+    from .. import agree
+    flfn = chk.func(U.ADV, "fieldline")
+    formals = [a.arg for a in flfn.args.args]
+    b = agree.bind_call(val, formals) or {}
+    if set(b) != set(formals) or formals[:2] != ["theta", "z_diff"]:
+        out["why"] = "arguments of fieldline not bound"
+        return out
+    out["args"] = b
+    col_frames = [f for f in st.frames if f.kind == "elems"]
+    row_frames = [f for f in st.frames if f.kind == "range"]
+    if any(f.kind == "other" for f in st.frames) or len(col_frames) > 1 or len(row_frames) > 1:
+        out["why"] = "loops around the store not recognised"
+        return out
+    theta, tpos = _strip_broadcast(b["theta"])
+    zd, zpos = _strip_broadcast(b["z_diff"])
+    out["theta"] = theta
+    csym = Symbol(col_frames[0].sym, integer=True) if col_frames else Symbol("Jv", integer=True)
+    out["col_sym"] = csym
+    full = lambda i: isinstance(i, ast.Slice) and i.lower is None and i.upper is None and i.step is None
+    if col_frames:
+        # loop over the stencil entries: the column is the position subscripted by the loop counter
+        cols = [k for k, i in enumerate(items) if isinstance(i, ast.Name) and i.id == col_frames[0].sym]
+        if len(cols) != 1:
+            out["why"] = f"no single table axis is subscripted by the stencil counter in `{src(st.node.targets[0])}`"
+            return out
+        out["col_axis"] = cols[0]
+        out["rank"] = len(items)
+        out["col_over"] = col_frames[0].over
+        rest = [k for k in range(len(items)) if k != cols[0]]
+        rows = [k for k in rest if not full(items[k])]
+        if len(rows) > 1 or (rest and not full(items[rest[-1]])):
+            out["why"] = f"axes of `{src(st.node.targets[0])}` not recognised"
+            return out
+        out["row_axis"] = rows[0] if rows else (rest[0] if len(rest) == 2 else None)
+        out["row_index"] = items[rows[0]] if rows else None
+        out["row_frame"] = row_frames[0] if row_frames else None
+        zexpr = zd
+    else:
+        # one vectorised call over all shifts: the column axis is where the shifts are broadcast to
+        if items and not all(full(i) for i in items):
+            out["why"] = f"axes of `{src(st.node.targets[0])}` not recognised"
+            return out
+        if row_frames or not fl.is_array_expr(zd) or zpos is None or tpos is None or zpos == tpos:
+            out["why"] = "vectorised fill: the broadcast axes of the shifts and of the theta nodes are not distinct single axes"
+            return out
+        out["col_axis"], out["rank"], out["row_axis"], out["row_index"], out["row_frame"] = zpos, 2, None, None, None
+        out["col_over"] = [_name("self._shifts")] if False else [ast.parse("self._shifts", mode="eval").body]
+        zexpr = fl.elem(zd, _name("Jv"))
+        if zexpr is None:
+            out["why"] = "vectorised fill: z_diff is not element-wise in the shifts"
+            return out
+    try:
+        out["zdiff"] = to_sym(zexpr, {"Jv": csym})
+    except Undecided as e:
+        out["why"] = f"z_diff `{src(b['z_diff'])[:50]}`: {e}"
+    return out
 
 
 def theta_table(chk):
-    """_getThetaVals: column i_l of the table holds the field-line angle for shift l"""
-    from ..core import find, same_expr, contains
-    fn = chk.func(U.ADV, f"{CLS}._getThetaVals")
-    b = find(fn, THETA_TABLE_TEMPLATE)
-    okn = b is not None and (contains(fn, "n = eta_grid[2].size", bind={"n": b["n"]}) if "n" in b else True)
-    ok, why = (True, "column i of the table = angle reached from each theta node by following the field line over shift_i cells "
-               "(dz x shift); identical for every row") if b is not None and okn else (None, "table fill not recognised")
-    asg = [n for n in ast.walk(fn) if isinstance(n, ast.Assign) and isinstance(n.targets[0], ast.Subscript)
-           and src(n.targets[0].value) == "thetaVals"]
-    if ok is None and len(asg) == 1 and isinstance(asg[0].targets[0].slice, ast.Tuple) and len(asg[0].targets[0].slice.elts) == 3:
-        a = asg[0]
-        lv = parent(a)
-        if isinstance(lv, ast.For) and isinstance(lv.target, ast.Tuple) and len(lv.target.elts) == 2 and isinstance(parent(lv), ast.For) \
-                and isinstance(parent(lv).target, ast.Name):
-            col, shift = (e.id for e in lv.target.elts)
-            kvar = parent(lv).target.id
-            row, cidx, rest = a.targets[0].slice.elts
-            bnd = {"k": kvar, "l": shift, "i": col}
-            diffs = []
-            if not same_expr(lv.iter, "enumerate(self._shifts)"):
-                diffs.append(f"the columns are generated from `{src(lv.iter)}` instead of enumerate(self._shifts), the shifts the weights and the scatter use")
-            if not (isinstance(row, ast.BinOp) and isinstance(row.op, ast.Mod) and same_expr(row.left, "k + l", bind=bnd)):
-                diffs.append(f"row index `{src(row)}` is not (row + shift) mod n")
-            if not same_expr(cidx, "i", bind=bnd):
-                diffs.append(f"column index `{src(cidx)}` is not the position of the shift")
-            if not same_expr(a.value, "fieldline(eta_grid[1], self._dz * l, iota, r, R0)", bind=bnd):
-                diffs.append(f"entry `{src(a.value)}` is not fieldline(theta nodes, dz x shift, iota, r, R0)")
-            if diffs:
-                ok, why = False, "; ".join(diffs)
-    chk.ob("F7-theta-table", asg[0] if asg else fn, "thetaVals[(k+l) % n, i, :] = fieldline(theta, dz*l, iota, r, R0)", ok, why,
-           file=U.ADV, func=f"{CLS}._getThetaVals")
+    """_getThetaVals: column c of the table holds the field-line angle for shift c, for every row the table has"""
+    from ..core import same_expr
+    tm = table_model(chk)
+    fn = tm["fn"]
+    facts = stencil_facts(chk)
+    q = f"{CLS}._getThetaVals"
+    label = "table[(row,) c, :] = fieldline(theta nodes, dz * shift_c, iota, r, R0)"
+    node = tm["store"].node if "store" in tm else fn
+    if "zdiff" not in tm:
+        chk.ob("F7-theta-table", node, label, None, "table fill not followed: " + tm.get("why", "?"), file=U.ADV, func=q)
+        return tm
+    c = tm["col_sym"]
+    diffs, unknown = [], []
+    # the displacement along z for column c
+    want = DZ * SHIFT(c)
+    got = tm["zdiff"]
+    if not alg_equal(got, want):
+        g2, w2 = concretise(got, facts), concretise(want, facts)
+        if g2.has(SHIFT) or g2.has(FWD) or g2.has(BKWD) or w2.has(SHIFT):
+            unknown.append(f"z displacement of column c is {got}; the stencil facts needed to compare it with dz*shift_c are not extractable")
+        else:
+            r, par, x, y = equal_for_all_n(g2, w2)
+            if r is False:
+                cs_ = Symbol("c")
+                x, y = x.subs(c, cs_), y.subs(c, cs_)
+                diffs.append(f"(n stencil points, m = n // 2) column c of the table holds the angle reached after a z displacement of {sp.factor(x)} (for an {par} number of stencil "
+                             f"points), but the weights and the scatter of parallel_gradient use shift_c = {sp.simplify(y / DZ)} cells for the same "
+                             f"column: the theta shift of each stencil point is off by {sp.simplify((x - y) / DZ)} x iota dz/R0")
+            elif r is None:
+                unknown.append(f"z displacement of column c is {got}: cannot be compared with dz*shift_c")
+    # number of columns
+    over = tm.get("col_over") or []
+    if len(over) == 1 and isinstance(over[0], ast.Call) and isinstance(over[0].func, ast.Name) and over[0].func.id == "range":
+        try:
+            a = over[0].args
+            cnt = to_sym(a[-1]) - (to_sym(a[0]) if len(a) == 2 else 0)
+            r, par, x, y = equal_for_all_n(concretise(cnt, facts), NPTS)
+            if r is False:
+                diffs.append(f"the fill loop writes {x} columns, the stencil has {y}: the remaining columns of the np.empty table stay uninitialised")
+            elif r is None:
+                unknown.append(f"number of columns written ({cnt}) not comparable with the stencil size")
+        except Undecided as e:
+            unknown.append(f"column range: {e}")
+    elif not (len(over) == 1 and src(over[0]) == "self._shifts"):
+        unknown.append(f"the columns are generated from `{', '.join(src(o) for o in over)}`, not from the shifts the weights and the scatter use")
+    # rows: every row of the table is written
+    if tm["row_index"] is not None:
+        rf = tm["row_frame"]
+        okrow = None
+        if rf is not None:
+            try:
+                ext = {"P_eta_grid[2].size": NZ, "len(P_eta_grid[2])": NZ}
+                lo, hi = to_sym(rf.lo, ext), to_sym(rf.hi, ext)
+                ri = to_sym(tm["row_index"], ext)
+                core, wrapped = strip_mod(ri)
+                k = Symbol(rf.sym, integer=True)
+                # row index = k + (an offset that does not depend on k), taken modulo nz (or k itself): a bijection of [0, nz)
+                if sp.simplify(lo) == 0 and sp.simplify(hi - NZ) == 0 and sp.simplify(sp.diff(core, k) - 1) == 0 and \
+                        (wrapped or sp.simplify(core - k) == 0):
+                    okrow = True
+            except Undecided:
+                okrow = None
+        if not okrow:
+            unknown.append(f"row index `{src(tm['row_index'])}` of the fill: coverage of all nz rows not established")
+    # theta nodes and the geometry arguments
+    b = tm["args"]
+    if not same_expr(tm["theta"], "P_eta_grid[1]"):
+        unknown.append(f"first argument of fieldline is `{src(b['theta'])}`, not the theta nodes eta_grid[1]")
+    for f_, want_ in (("iota", "P_iota"), ("r", "P_r"), ("R0", "P_R0")):
+        if f_ in b and not same_expr(b[f_], want_):
+            unknown.append(f"fieldline receives `{src(b[f_])}` as `{f_}`")
+    ok = False if diffs else (None if unknown else True)
+    chk.ob("F7-theta-table", node, label, ok,
+           "column c of the table = angle reached from each theta node by following the field line over shift_c cells (dz x shift_c); "
+           "identical for every row" if ok else "; ".join(diffs + unknown), file=U.ADV, func=q,
+           facts={"zdiff": str(got), "col_axis": tm.get("col_axis"), "rank": tm.get("rank")})
+    # allocation and per-radius call in the constructor
+    init = chk.func(U.ADV, f"{CLS}.__init__")
+    fi = Flow(init, arrays=set()).run()
+    alloc = [e for e in fi.events if e.kind == "store" and src(e.target) == "self._thetaVals"]
+    oka, why = None, "allocation of self._thetaVals not recognised"
+    if len(alloc) == 1 and isinstance(alloc[0].value, ast.Call) and src(alloc[0].value.func).split(".")[-1] in ALLOC and alloc[0].value.args \
+            and isinstance(alloc[0].value.args[0], (ast.List, ast.Tuple)):
+        shp = alloc[0].value.args[0].elts
+        ext = {"P_order": Symbol("order", integer=True, positive=True), "P_eta_grid[2].size": NZ, "len(P_eta_grid[2])": NZ}
+        if len(shp) == tm["rank"] + 1:
+            try:
+                ncol = to_sym(shp[1 + tm["col_axis"]], ext)
+                d = sp.simplify(ncol - (ext["P_order"] + 1))
+                rows_ok = True
+                if tm["row_axis"] is not None:
+                    rows_ok = sp.simplify(to_sym(shp[1 + tm["row_axis"]], ext) - NZ) == 0
+                if d == 0 and rows_ok:
+                    oka, why = True, (f"one [{'nz, ' if tm['row_axis'] is not None else ''}order+1, ntheta] table per local radius, "
+                                      "the axes the fill and the reader use")
+                elif d != 0 and d.is_number:
+                    oka, why = False, (f"the table is allocated with {ncol} columns for order+1 stencil entries: "
+                                       + ("the fill writes outside it" if d < 0 else "the extra columns stay uninitialised"))
+                else:
+                    why = f"shape {[src(x) for x in shp]} not matched with the axes the fill uses"
+            except Undecided as e:
+                why = f"shape of the table: {e}"
+        else:
+            why = f"the table has {len(shp) - 1} axes per radius, the fill indexes {tm['rank']}"
+            oka = False if "store" in tm and len(shp) - 1 < tm["rank"] else None
+    chk.ob("F7-theta-table", alloc[0].node if alloc else init, "self._thetaVals = np.empty([n_r, (nz,) order+1, ntheta])", oka, why,
+           file=U.ADV, func=f"{CLS}.__init__")
+    return tm
+
+
+# ======================================================================================================================
+# parallel_gradient: scatter model
+# ======================================================================================================================
+class Contribution:
+    """one accumulation statement: rows of `row` (a counted frame) x stencil entries of `sten`"""
+
+    def __init__(self, ev):
+        self.ev = ev
+        self.row = self.sten = None
+        self.src_row = self.point = self.target = self.weight = None
+        self.problems = []
+
+
+def scatter_model(chk):
+    cache = chk.__dict__.setdefault("_c13_facts", {})
+    if "scatter" in cache:
+        return cache["scatter"]
+    fn = chk.func(U.ADV, f"{CLS}.parallel_gradient")
+    fl = Flow(fn, arrays={"self._shifts", "self._coeffs"}).run()
+    m = {"fn": fn, "flow": fl, "contribs": [], "clears": [], "scales": [], "other_stores": [], "why": None}
+    cache["scatter"] = m
+    if fl.opaque:
+        m["why"] = "statement outside the model: " + fl.opaque[0]
+    interp = {}      # id(frame) -> (event, resolved source row expr)
+    evals = {}       # buffer symbol -> (event, point expr) of the latest eval_vector in the same stencil frame
+    for ev in fl.events:
+        if ev.kind == "call":
+            c = ev.value
+            f = src(c.func)
+            if f == "self._interpolator.compute_interpolant" and len(c.args) == 2 and src(c.args[1]) == "self._thetaSpline":
+                interp[id(ev.frames[-1]) if ev.frames else 0] = (ev, c.args[0])
+            elif f == "self._thetaSpline.eval_vector" and len(c.args) >= 2 and isinstance(c.args[1], ast.Name):
+                extra = c.args[2:] + [k.value for k in c.keywords]
+                evals[c.args[1].id] = (ev, c.args[0], extra)
+            elif f.startswith("self._thetaSpline.") or f.startswith("self._interpolator."):
+                m["why"] = m["why"] or f"call `{src(ev.node)[:60]}` not modelled"
+            elif f == "P_der.fill" and len(c.args) == 1 and not c.keywords and not ev.frames:
+                m["clears"].append((ev, c.args[0]))
+            elif any(isinstance(n, ast.Name) and (n.id == "P_der" or n.id.startswith("BUF_")) for n in ast.walk(c)):
+                m["why"] = m["why"] or f"call `{src(ev.node)[:60]}` may change the result or a work array: not modelled"
+        elif ev.kind == "store":
+            base = ev.target
+            while isinstance(base, ast.Subscript):
+                base = base.value
+            if not (isinstance(base, ast.Name) and base.id == "P_der"):
+                if isinstance(base, ast.Name) and base.id.startswith("BUF_"):
+                    m["other_stores"].append(ev)
+                continue
+            in_loop = bool(ev.frames)
+            tgt = ev.target
+            items = [] if isinstance(tgt, ast.Name) else (list(tgt.slice.elts) if isinstance(tgt.slice, ast.Tuple) else [tgt.slice])
+            full = lambda i: isinstance(i, ast.Slice) and i.lower is None and i.upper is None and i.step is None
+            whole = all(full(i) for i in items)
+            val, op = ev.value, ev.op
+            # `der[t] = der[t] + v` is the accumulation `der[t] += v`
+            if op is None and isinstance(val, ast.BinOp) and isinstance(val.op, (ast.Add, ast.Mult)):
+                for a, b in ((val.left, val.right), (val.right, val.left)):
+                    if src(a) == src(tgt):
+                        val, op = b, val.op
+                        break
+            if not in_loop and whole and op is None:
+                m["clears"].append((ev, val))
+            elif not in_loop and whole and isinstance(op, (ast.Mult, ast.Div)):
+                m["scales"].append((ev, val, op))
+            elif in_loop and isinstance(op, (ast.Add, ast.Sub)) and items and all(full(i) for i in items[1:]):
+                c = Contribution(ev)
+                c.op = op
+                c.target = items[0]
+                c.value = val
+                rows = [f for f in ev.frames if f.kind == "range"]
+                stens = [f for f in ev.frames if f.kind == "elems" or (f.kind == "range" and src(f.hi) in SIZES and src(f.lo) == "0")]
+                rows = [f for f in rows if f not in stens]
+                if len(rows) != 1 or len(stens) != 1 or any(f.kind == "other" for f in ev.frames):
+                    c.problems.append("the loops around the accumulation are not one loop over rows and one over the stencil entries")
+                else:
+                    c.row, c.sten = rows[0], stens[0]
+                    it = interp.get(id(c.row))
+                    if it is None:
+                        c.problems.append("no compute_interpolant call in the row loop before the accumulation")
+                    else:
+                        c.src_row = it[1]
+                    bufs = [n.id for n in ast.walk(val) if isinstance(n, ast.Name) and n.id.startswith("BUF_")]
+                    if len(bufs) == 1 and bufs[0] in evals and evals[bufs[0]][0].frames and evals[bufs[0]][0].frames[-1] is c.sten:
+                        c.buf = bufs[0]
+                        c.point = evals[bufs[0]][1]
+                        c.eval_extra = evals[bufs[0]][2]
+                    else:
+                        c.problems.append("the accumulated value is not (weight) x (buffer filled by eval_vector in the same stencil iteration)")
+                m["contribs"].append(c)
+            else:
+                m["other_stores"].append(ev)
+                m["why"] = m["why"] or f"store `{src(ev.node)[:60]}` into the result not modelled"
+    return m
 
 
 def regimes(chk):
-    """the three index regimes of parallel_gradient are one statement; their ranges tile [0, nz)"""
-    fn = chk.func(U.ADV, f"{CLS}.parallel_gradient")
-    loops = [n for n in fn.body if isinstance(n, ast.For)]
-    if len(loops) != 3:
-        chk.ob("F7-regimes", fn, "three index regimes", None, f"{len(loops)} top-level loops found, 3 expected (idiom changed)",
-               file=U.ADV, func=f"{CLS}.parallel_gradient")
+    """the source rows of parallel_gradient tile [0, nz) whatever block the caller owns; unwrapped target rows stay inside the
+    array (shared with C05)"""
+    m = scatter_model(chk)
+    fn = m["fn"]
+    facts = stencil_facts(chk)
+    q = f"{CLS}.parallel_gradient"
+    cs = m["contribs"]
+    if m["why"] or not cs or any(c.row is None for c in cs):
+        chk.ob("F7-regimes", fn, "source rows tile [0, nz)", None,
+               "scatter not followed: " + (m["why"] or ("no accumulation into the result found" if not cs else
+                                                        next(p for c in cs for p in c.problems))), file=U.ADV, func=q)
         return None
-
-    class Strip(ast.NodeTransformer):
-        def visit_BinOp(self, node):
-            self.generic_visit(node)
-            if isinstance(node.op, ast.Mod) and src(node.right) == "self._nz":
-                return node.left
-            return node
-    bodies = []
-    for l in loops:
-        m = ast.Module(body=[ast.parse(src(s)).body[0] for s in l.body], type_ignores=[])
-        m = Strip().visit(m)
-        bodies.append(src(ast.fix_missing_locations(m)).replace("(i - s)", "i - s"))
-    same = len(set(bodies)) == 1
-    rng = [src(l.iter).replace(" ", "") for l in loops]
-    tile = rng == ["range(self._fwdSteps)", "range(self._fwdSteps,self._nz-self._bkwdSteps)", "range(self._nz-self._bkwdSteps,self._nz)"]
-    wrapped = ["% self._nz" in src(l) for l in loops]
-    chk.ob("F7-regimes", fn, "three loops over z rows", same and tile and wrapped[0] and wrapped[2],
-           "the three loops are the same statement up to the modulo on the target row, their ranges tile [0, nz), and both "
-           "boundary regimes wrap the target row" if same and tile and wrapped[0] and wrapped[2] else
-           f"bodies identical={same}, ranges={rng}, boundary regimes wrap={wrapped}", file=U.ADV, func=f"{CLS}.parallel_gradient")
-    return loops
-
-
-def gradient_formula(chk, loops):
-    fn = chk.func(U.ADV, f"{CLS}.parallel_gradient")
-    lp = loops[0]
-    # row i is interpolated, then for stencil entry j: evaluate at thetaVals[i, j, :], accumulate c_j * value into row (i - s_j)
-    from ..core import find as _find
-    ok = _find(lp, """
-self._interpolator.compute_interpolant(phi_r[i, :], self._thetaSpline)
-for j, (s, c) in enumerate(zip(self._shifts, self._coeffs)):
-    self._thetaSpline.eval_vector(thetaVals[i, j, :], tmp)
-    der[(i - s) % self._nz, :] += c * tmp
-""") is not None
-    bad = None
-    if not ok:
-        from ..core import same_expr as _same
-        inner = [n for n in ast.walk(lp) if isinstance(n, ast.For) and n is not lp]
-        acc = [n for n in ast.walk(lp) if isinstance(n, ast.AugAssign) and isinstance(n.target, ast.Subscript) and src(n.target.value) == "der"]
-        if len(inner) == 1 and len(acc) == 1 and _same(inner[0].iter, "enumerate(zip(self._shifts, self._coeffs))") \
-                and isinstance(acc[0].target.slice, ast.Tuple):
-            row = acc[0].target.slice.elts[0]
-            core_row = row.left if isinstance(row, ast.BinOp) and isinstance(row.op, ast.Mod) else row
-            if not isinstance(acc[0].op, ast.Add):
-                bad = f"`{src(acc[0])}` does not add the stencil contribution"
-            elif not _same(core_row, "i - s"):
-                bad = (f"the contribution of source row i with shift s is accumulated into row `{src(row)}`, not row i - s: the finite "
-                       "difference is taken along the wrong direction / with the wrong pairing of row and weight")
-            elif not _same(acc[0].value, "c * tmp"):
-                bad = f"the accumulated value `{src(acc[0].value)}` is not (weight of the same stencil entry) x (interpolated row)"
-    chk.pat("F7-gradient-formula", lp, "der[(i - s_j) % nz] += c_j * S_i(thetaVals[i, j])", ok,
-            "der[k] = sum_j c_j * (theta-spline of row k + s_j)(theta shifted along the field line by s_j cells): shift, "
-            "coefficient and angle column carry the same j", bad, file=U.ADV, func=f"{CLS}.parallel_gradient")
-    pre = src(fn).replace(" ", "").replace("\n", ";")
-    ok0 = "der[:]=0" in pre and pre.index("der[:]=0") < pre.index("foriinrange")
-    chk.ob("F7-gradient-formula", fn, "der[:] = 0 before accumulation", ok0, "the result array is cleared before the scatter-add"
-           if ok0 else "the result is not cleared before accumulation", file=U.ADV, func=f"{CLS}.parallel_gradient")
-    # scaling: der *= bz * inv_dz  with inv_dz = 1/dz, once, after the loops
-    init = chk.func(U.ADV, f"{CLS}.__init__")
-    ti = src(init).replace(" ", "").replace("\n", ";")
-    aug = [n for n in fn.body if isinstance(n, ast.AugAssign) and src(n.target) == "der"]
-    bz, inv = sp.symbols("bz inv_dz")
-    oks = False
-    if len(aug) == 1 and isinstance(aug[0].op, ast.Mult) and aug[0].lineno > loops[-1].lineno:
+    # distinct row loops in program order
+    frames = []
+    for c in cs:
+        if not any(c.row is f for f in frames):
+            frames.append(c.row)
+    dep = sorted({p_ for f in frames for p_ in params_in(f.lo) + params_in(f.hi)})
+    if dep:
+        label = f"{len(frames)} loop(s) over z rows, bounds depending on argument(s) {', '.join(dep)}"
+    else:
+        label = (f"{len(frames)} loop(s) over z rows: " + ", ".join(f"[{src(f.lo)[:40]}, {src(f.hi)[:40]})" for f in frames)).replace("self._", "")
+    bounds, unknown = [], []
+    clip = []
+    for f in frames:
+        ps = sorted(set(params_in(f.lo) + params_in(f.hi)))
+        clipped = [n for e in (f.lo, f.hi) for n in ast.walk(e) if isinstance(n, ast.Call) and src(n.func) in ("min", "max", "np.minimum", "np.maximum")
+                   and params_in(n) and any(src(a) in ("0", "self._nz") for a in n.args)]
+        if ps and clipped:
+            clip.append((f, ps, clipped[0]))
         try:
-            n = NpSym(env={"bz": bz}, hooks={"self._inv_dz": inv})
-            oks = alg_equal(n.ev(aug[0].value), bz * inv)
-        except Undecided:
-            oks = False
-    okd = "self._inv_dz=1.0/self._dz" in ti or "self._inv_dz=1/self._dz" in ti
-    okz = "self._dz=eta_grid[2][1]-eta_grid[2][0]" in ti
-    bzdef = [n for n in fn.body if isinstance(n, ast.Assign) and src(n.targets[0]) == "bz"]
-    okb = len(bzdef) == 1 and src(bzdef[0].value) == "self._bz[i]"
-    chk.ob("F7-scaling", aug[0] if aug else fn, "der *= b_z(r_i) / dz", oks and okd and okz and okb,
-           "the finite-difference combination is scaled once by b_z of the slice's radius over the z spacing" if oks and okd and okz and okb
-           else f"scaling ok={oks}, 1/dz ok={okd}, dz ok={okz}, bz of row i ok={okb}", file=U.ADV, func=f"{CLS}.parallel_gradient")
+            bounds.append((to_sym(f.lo), to_sym(f.hi)))
+        except Undecided as e:
+            unknown.append(f"bounds [{src(f.lo)}, {src(f.hi)}): {e}")
+    if clip:
+        f, ps, cl = clip[0]
+        nm = [p for p in ps if p not in ("phi_r", "i", "der")] or ps
+        chk.ob("F7-regimes", f.node, label, False,
+               f"the rows that contribute depend on the caller's argument `{nm[0]}` and the window is clipped to [0, nz) "
+               f"(`{src(cl).replace('P_', '')}`) instead of being wrapped periodically: for a z block that touches z = 0 or z = nz-1 the rows on the "
+               "other side of the periodic seam are skipped, so the gradient on the lines next to the seam lacks their stencil "
+               "contributions - the result depends on how z is distributed", file=U.ADV, func=q)
+        return m
+    if unknown or any(params_in(f.lo) + params_in(f.hi) for f in frames):
+        chk.ob("F7-regimes", frames[0].node, label, None, "; ".join(unknown) or
+               "the row ranges depend on arguments of the call: coverage of [0, nz) not established", file=U.ADV, func=q)
+        return m
+    # tiling
+    gaps = []
+    seq = [Integer(0)] + [x for b in bounds for x in b] + [NZ]
+    for k in range(0, len(seq), 2):
+        d = sp.simplify(seq[k] - seq[k + 1])
+        if d != 0:
+            where = "first row" if k == 0 else "last row" if k == len(seq) - 2 else f"between range {k // 2} and {k // 2 + 1}"
+            d2 = concretise(d, facts)
+            dec = [sp.simplify(x) for x in parities(d2)]
+            if all(x == 0 for x in dec):
+                continue
+            gaps.append((where, seq[k], seq[k + 1], any(sign_for_all(x) in ("pos", "neg") for x in dec)))
+    wrapped_all = True
+    problems, unwrapped = [], []
+    for c in cs:
+        try:
+            core, wr = strip_mod(to_sym(c.target))
+        except Undecided as e:
+            problems.append(f"target row `{src(c.target)}`: {e}")
+            continue
+        if not wr:
+            wrapped_all = False
+            unwrapped.append((c, core))
+    bad = []
+    if gaps and any(g[3] for g in gaps):
+        g = next(g for g in gaps if g[3])
+        bad.append(f"the row ranges do not tile [0, nz): {g[0]}: {g[1]} is followed by {g[2]} - rows are skipped or visited twice")
+    elif gaps:
+        problems.append(f"tiling not established at {gaps[0][0]}: {gaps[0][1]} vs {gaps[0][2]}")
+    # unwrapped targets: row - shift must stay in [-nz, nz) (a negative index counts from the end, as the interior loop relies on for
+    # odd orders); needs the extreme shifts as functions of n and nz > order = n - 1
+    for c, core in unwrapped:
+        k = Symbol(c.row.sym, integer=True)
+        j = Symbol(c.sten.sym, integer=True)
+        lo, hi = bounds[[f is c.row for f in frames].index(True)]
+        if "shift" not in facts or "fwd" not in facts or "bkwd" not in facts:
+            problems.append("unwrapped target rows: the extreme shifts are not extractable from getCoeffsFirstDeriv")
+            continue
+        cc = concretise(core, facts)
+        if sp.simplify(sp.diff(cc, k) - 1) != 0 or sp.simplify(sp.diff(cc, j) + 1) != 0:
+            problems.append(f"unwrapped target row {core} is not (row - shift_j) + const: range not bounded")
+            continue
+        t = Symbol("t", integer=True, nonnegative=True)
+        for par, vals in zip(("even", "odd"), zip(*[parities(concretise(x, facts)) for x in
+                                                      (cc.subs({k: hi - 1, j: 0}), cc.subs({k: lo, j: NPTS - 1}))])):
+            top, bot = vals
+            nsub = parities(NPTS)[0 if par == "even" else 1]
+            over = sp.simplify((top - (NZ - 1)).subs(NZ, nsub + t))
+            under = sp.simplify((bot + NZ).subs(NZ, nsub + t))
+            so, su = sign_for_all(over), sign_for_all(under)
+            if so == "pos":
+                bad.append(f"rows up to {sp.simplify(hi - 1)} accumulate into row {sp.simplify(top)} without the modulo (for an {par} number of "
+                           "stencil points): beyond the last row nz-1 - IndexError / rows missing at the upper periodic seam")
+            elif su == "neg":
+                bad.append(f"rows from {lo} accumulate into row {sp.simplify(bot)} < -nz without the modulo")
+            elif not (so in ("nonpos", "neg", "zero") and su in ("nonneg", "pos", "zero")):
+                problems.append(f"unwrapped target rows of [{lo}, {hi}): bounds {bot} .. {top} not decided against [-nz, nz)")
+    ok = False if bad else (None if problems else True)
+    chk.ob("F7-regimes", frames[0].node, label, ok,
+           ("the row ranges tile [0, nz) and " + ("every target row is taken modulo nz" if wrapped_all else
+                                                  "target rows are taken modulo nz except where row - shift stays inside [-nz, nz)"))
+           if ok else "; ".join(dict.fromkeys(bad + problems)), file=U.ADV, func=q)
+    return m
+
+
+def gradient_formula(chk, m):
+    from ..core import same_expr
+    fn = m["fn"]
+    q = f"{CLS}.parallel_gradient"
+    tm = table_model(chk)
+    facts = stencil_facts(chk)
+    label = "der[(row - s_j) % nz] += c_j * S_row(table[row, j])"
+    for c in m["contribs"]:
+        bad, unknown = [], list(c.problems)
+        if c.row is not None and not c.problems:
+            k, j = Symbol(c.row.sym, integer=True), Symbol(c.sten.sym, integer=True)
+            # the stencil loop runs over the shifts/coefficients themselves (or counts their entries)
+            fl = m["flow"]
+            if c.sten.kind == "elems" and not all(fl.is_array_expr(o) for o in c.sten.over):
+                unknown.append(f"the stencil loop runs over `{', '.join(src(o) for o in c.sten.over)}`".replace("P_", ""))
+            # source row: phi_r[row, :]
+            if not (same_expr(c.src_row, f"P_phi_r[{c.row.sym}, :]") or same_expr(c.src_row, f"P_phi_r[{c.row.sym}]")):
+                unknown.append(f"the row loop interpolates `{src(c.src_row).replace('P_', '')}`, not row `{c.row.sym}` of phi_r")
+            # target row = row - shift_j (mod nz)
+            try:
+                core, wr = strip_mod(to_sym(c.target))
+                d = sp.simplify(core - (k - SHIFT(j)))
+                if d != 0 and not (wr and sp.simplify(d / NZ).is_integer):
+                    if sp.simplify(core - (k + SHIFT(j))) == 0:
+                        bad.append(f"the contribution of source row r with shift s is accumulated into row r + s (`{src(c.ev.node.target if isinstance(c.ev.node, ast.AugAssign) else c.ev.node.targets[0])}`), "
+                                   "not r - s: der[k] then combines the rows k - s_j with the weights of +s_j - the derivative along the "
+                                   "reversed field line (sign and, for odd orders, stencil are wrong)")
+                    elif core.has(SHIFT) and core.has(k):
+                        bad.append(f"target row {core} is not (source row) - shift_j: wrong pairing of row and weight")
+                    else:
+                        unknown.append(f"target row {core}")
+            except Undecided as e:
+                unknown.append(f"target row `{src(c.target)}`: {e}")
+            if not isinstance(c.op, ast.Add):
+                bad.append(f"`{src(c.ev.node)[:70]}` subtracts the stencil contribution")
+            # weight = coeff_j (times call-invariant factors, judged by F7-scaling)
+            try:
+                val = to_sym(c.value)
+                B = Symbol(c.buf)
+                w = sp.simplify(sp.diff(val, B))
+                if w.has(B) or sp.simplify(val.subs(B, 0)) != 0:
+                    unknown.append(f"accumulated value {val} is not linear in the interpolated row")
+                else:
+                    c.weight = w
+                    cj = [a for a in w.atoms(sp.Function) if a.func == COEFF]
+                    if len(cj) != 1 or sp.simplify(sp.diff(w, cj[0]) * cj[0] - w) != 0:
+                        (bad if not cj and not w.has(sp.Function) and not w.free_symbols - {INVDZ, DZ} else unknown).append(
+                            f"the weight of the contribution is {w}, not the finite-difference coefficient of the stencil entry")
+                    elif sp.simplify(cj[0].args[0] - j) != 0:
+                        bad.append(f"the weight is coefficient {cj[0].args[0]} while shift and angle column are those of entry {j}: "
+                                   "shift and weight of different stencil entries are paired")
+            except Undecided as e:
+                unknown.append(f"accumulated value `{src(c.value)[:50]}`: {e}")
+            # evaluation points: table of the slice's radius, column j (row `row` if the table has rows)
+            p = c.point
+            if getattr(c, "eval_extra", None) and not all(isinstance(x, ast.Constant) and x.value == 0 for x in c.eval_extra):
+                bad.append(f"eval_vector is called with derivative argument `{src(c.eval_extra[0])}`: not the value of the theta-spline")
+            chain = []
+            while isinstance(p, ast.Subscript):
+                chain.insert(0, list(p.slice.elts) if isinstance(p.slice, ast.Tuple) else [p.slice])
+                p = p.value
+            items = [i for grp in chain for i in grp]
+            full = lambda i: isinstance(i, ast.Slice) and i.lower is None and i.upper is None and i.step is None
+            if src(p) != "self._thetaVals" or not items:
+                unknown.append(f"evaluation points `{src(c.point).replace('P_', '')}` are not taken from self._thetaVals")
+            else:
+                rad, rest = items[0], items[1:]
+                while rest and full(rest[-1]):
+                    rest = rest[:-1]
+                if not (isinstance(rad, ast.Name) and rad.id == "P_i"):
+                    (unknown if isinstance(rad, ast.Name) and rad.id.startswith("U_") else bad).append(
+                        f"the angle table is that of radius index `{src(rad).replace('P_', '')}`, not of the slice's index i")
+                rank = tm.get("rank")
+                if rank is None:
+                    unknown.append("layout of the angle table not established (see F7-theta-table)")
+                elif len(rest) > rank or len(rest) < rank - 1:
+                    unknown.append(f"the table has {rank} axes per radius, the reader subscripts {len(rest)}")
+                else:
+                    ca, ra = tm["col_axis"], tm["row_axis"]
+                    if ca >= len(rest) or not (isinstance(rest[ca], ast.Name) and rest[ca].id == c.sten.sym):
+                        got_c = src(rest[ca]) if ca < len(rest) else ":"
+                        definite = same_col = False
+                        if ca < len(rest):
+                            try:
+                                dcol = sp.simplify(to_sym(rest[ca]) - j)
+                                same_col = dcol == 0
+                                definite = not any(str(x).startswith(("U_", "P_")) for x in dcol.free_symbols)
+                            except Undecided:
+                                pass
+                        if not same_col:
+                            (bad if definite else unknown).append(
+                                f"axis {ca} of the table is the stencil column; the reader subscripts it with `{got_c}`, not with the stencil "
+                                f"entry {c.sten.sym} whose shift and weight are used: the theta-spline is evaluated at the angles of another shift")
+                    if ra is not None and ra < len(rest):
+                        try:
+                            rr, _ = strip_mod(to_sym(rest[ra]))
+                            if sp.simplify(rr - k) != 0:
+                                unknown.append(f"row axis of the table subscripted with {rr}")
+                        except Undecided as e:
+                            unknown.append(f"row axis of the table: {e}")
+        ok = False if bad else (None if unknown else True)
+        rng = f" rows [{src(c.row.lo)}, {src(c.row.hi)})".replace("self._", "") if c.row is not None else ""
+        chk.ob("F7-gradient-formula", c.ev.node, label + rng, ok,
+               "der[k] = sum_j c_j * (theta-spline of row k + s_j)(theta shifted along the field line by s_j cells): shift, "
+               "coefficient and angle column carry the same j" if ok else "; ".join(bad + unknown), file=U.ADV, func=q)
+    # cleared before accumulation
+    first = min((c.ev.node.lineno for c in m["contribs"]), default=None)
+    clears = [(ev, v) for ev, v in m["clears"] if first is None or ev.node.lineno < first]
+    ok0 = bad0 = None
+    if clears and isinstance(clears[-1][1], ast.Constant) and clears[-1][1].value == 0 and not clears[-1][0].guards:
+        ok0 = True
+    elif not m["clears"] and not m["why"] and m["contribs"]:
+        bad0 = ("the result array is never cleared: the stencil contributions are added to whatever the caller's array held (the table "
+                "row of the previous time step in VParallelAdvection.gridStep)")
+    chk.pat("F7-gradient-formula", clears[-1][0].node if clears else fn, "der[:] = 0 before accumulation", ok0,
+            "the result array is cleared before the scatter-add", bad0, file=U.ADV, func=q)
+    # ---- scaling: (weight / coeff_j) x (final factor) = b_z(r_i) / dz, the same for every contribution, applied once
+    init = chk.func(U.ADV, f"{CLS}.__init__")
+    ni = NpSym(env={"int": lambda x: x}, hooks={})
+    zs = {}
+    for nd in ast.walk(init):
+        if isinstance(nd, ast.Subscript) and src(nd.value) == "eta_grid[2]" and isinstance(nd.slice, ast.Constant) and isinstance(nd.slice.value, int):
+            ni.hooks[src(nd)] = Symbol("z0", real=True) + nd.slice.value * DZ
+    ni.run(init.body)
+    dzv, inv = ni.env.get("self._dz"), ni.env.get("self._inv_dz")
+    last = max((c.ev.node.lineno for c in m["contribs"]), default=0)
+    after = [(ev, v, op) for ev, v, op in m["scales"] if ev.node.lineno > last]
+    before = [(ev, v, op) for ev, v, op in m["scales"] if ev.node.lineno <= last]
+    bad, unknown = [], []
+    total = Integer(1)
+    try:
+        for ev, v, op in after:
+            if ev.guards:
+                unknown.append(f"`{src(ev.node)}` is conditional")
+            total = total * to_sym(v) if isinstance(op, ast.Mult) else total / to_sym(v)
+    except Undecided as e:
+        unknown.append(f"final scaling `{src(after[-1][0].node)}`: {e}")
+    if before:
+        unknown.append(f"`{src(before[0][0].node)}` scales the result before the accumulation is complete")
+    ws = [c.weight for c in m["contribs"]]
+    if not m["contribs"] or any(w is None for w in ws):
+        unknown.append("weights of the contributions not established (see F7-gradient-formula)")
+    else:
+        i_par = Symbol("P_i")
+        want = BZ(i_par) * INVDZ
+        for c in m["contribs"]:
+            j = Symbol(c.sten.sym, integer=True)
+            tot = sp.simplify(c.weight * total / COEFF(j))
+            if dzv is not None and inv is not None:
+                tot = tot.subs(DZ, Symbol("DZ_"))
+                tot = tot.subs(INVDZ, inv).subs(Symbol("DZ_"), dzv).subs(DZ, Symbol("dz", positive=True))
+                tot = sp.simplify(tot)
+                w2 = BZ(i_par) / DZ
+            else:
+                w2 = want
+            # other constructor attributes stand for their values
+            for s_ in list(tot.free_symbols):
+                v_ = ni.env.get(str(s_)) if str(s_).startswith("self.") else None
+                if isinstance(v_, sp.Basic):
+                    tot = sp.simplify(tot.subs(s_, v_))
+            if alg_equal(tot, w2):
+                continue
+            bzs = [a for a in tot.atoms(sp.Function) if a.func == BZ and sp.simplify(a.args[0] - i_par) != 0]
+            loopsyms = {f.sym: f for c_ in m["contribs"] for f in (c_.row, c_.sten)}
+            if bzs and (str(bzs[0].args[0]) in loopsyms or bzs[0].args[0].is_number):
+                what = f"the loop counter of `{src(loopsyms[str(bzs[0].args[0])].node).splitlines()[0][:50]}` (which has taken the place of the " \
+                       "radius index after the loop)" if str(bzs[0].args[0]) in loopsyms else f"the fixed index {bzs[0].args[0]}"
+                bad.append(f"b_z is taken at {what}, not at the slice's radius index i: the gradient is scaled with the b_z of another radius")
+            elif tot.has(COEFF) or any(str(s_).startswith(("U_", "BUF_", "K", "J")) for s_ in tot.free_symbols):
+                unknown.append(f"total factor of a contribution is {tot}")
+            elif bzs:
+                bad.append(f"b_z is taken at index {bzs[0].args[0]}, not at the slice's radius index i: the gradient of every radius is scaled "
+                           "with the b_z of another one")
+            elif any(str(s_).startswith(("self.", "P_", "cond_")) for s_ in tot.free_symbols - {i_par}):
+                unknown.append(f"total factor of a contribution is {tot}: contains quantities the model has no value for")
+            else:
+                bad.append(f"the finite-difference combination is scaled by {tot}, expected b_z(r_i)/dz = {w2}".replace("P_i", "i"))
+    if dzv is None or inv is None:
+        unknown.append("self._dz / self._inv_dz of the constructor not extractable")
+    oks = False if bad else (None if unknown else True)
+    chk.ob("F7-scaling", after[-1][0].node if after else fn, "der *= b_z(r_i) / dz", oks,
+           "the finite-difference combination is scaled once by b_z of the slice's radius over the z spacing" if oks else
+           "; ".join(dict.fromkeys(bad + unknown)), file=U.ADV, func=q)
     muts = lints.shared_state_mutations(fn, lambda s: s.split("[")[0] in ("self._bz", "self._thetaVals", "self._coeffs", "self._shifts"))
-    chk.ob("G2-no-shared-mutation", fn, "parallel_gradient vs precomputed tables", not muts,
+    chk.ob("G2-no-shared-mutation", muts[0][0] if muts else fn, "parallel_gradient vs precomputed tables", not muts,
            "the precomputed b_z, angle and coefficient tables are only read" if not muts else
-           "; ".join(d for _, d in muts) + " - every later call for the same radius is scaled again", file=U.ADV,
-           func=f"{CLS}.parallel_gradient")
+           "; ".join(d for _, d in muts) + " - the stored table is changed by every call, so later calls (other radii, later time "
+           "steps) are scaled again", file=U.ADV, func=q)
 
 
 def run(chk):
     chk.explanation = (
-        "Finite-difference moment system (e_1 right-hand side, consecutive shifts centred for even order, Vandermonde rows); "
-        "field-line angle table (column i = fieldline(theta, dz x shift_i)); the three index regimes are one statement and "
-        "tile [0, nz); accumulation pairs shift, coefficient and angle column of the same j and targets row (i - s_j) mod nz; "
-        "scaling b_z(r_i)/dz applied once; b_z and pitch agree with the flux-surface advection; the precomputed tables are "
-        "not mutated by a call; index-space typing of the per-radius tables (engine C). Convergence order is not decided.")
+        "Finite-difference moment system (e_1 right-hand side, consecutive shifts centred for even order, Vandermonde rows) by "
+        "normal forms in the number of points; field-line angle table (column c = fieldline(theta, dz x shift_c), every row, "
+        "allocation axes) from a def-use/loop-frame model of _getThetaVals; scatter model of parallel_gradient: the source-row "
+        "ranges tile [0, nz), each contribution pairs shift, coefficient and angle column of the same stencil entry and targets "
+        "row (row - s_j) mod nz, unwrapped targets stay inside [-nz, nz); total scale b_z(r_i)/dz applied once; b_z and pitch "
+        "agree with the flux-surface advection; the precomputed tables are not mutated by a call; index-space typing of the "
+        "per-radius tables (engine C). Convergence order is not decided.")
     chk.in_file(U.ADV)
     fd_system(chk)
     theta_table(chk)
-    loops = regimes(chk)
-    if loops:
-        gradient_formula(chk, loops)
+    m = regimes(chk)
+    if m:
+        gradient_formula(chk, m)
     sibling_geometry(chk)
     pg_attrs, pg_summ = pg_index_spaces(chk)
     # the grid-level caller hands parallel_gradient the index space its tables need
